@@ -17,7 +17,9 @@ func init() {
 //
 //	0 an idle tunnel, 1 a pending Send (gateway silent), 2 a pending heartbeat exchange,
 //	3 a pending reconnect (heartbeat failed, gateway silent), 4 parked inbound deliveries
-//	(nobody reading), 5 a tunnel whose socket already died.
+//	(nobody reading), 5 a tunnel whose socket already died, 6 an idle tunnel whose socket refuses
+//	exactly the next transmission (the disconnect request meets a transient error while the
+//	socket's inbound side stays open): Close still ends the tunnel.
 func HarnessC10(a []int) {
 	scenario, closers, withReader := a[0], a[1], a[2] == 1
 	sock := newVSock()
@@ -77,6 +79,8 @@ func HarnessC10(a []int) {
 		dead = true
 		close(sock.in)
 		verifQuiesce()
+	case 6:
+		sock.failOnce = true
 	}
 	tClose := verifNow()
 	returned := 0
@@ -105,7 +109,12 @@ func HarnessC10(a []int) {
 			disc++
 		}
 	}
-	verifAssert("C10.one_disconnect_request", disc == 1)
+	if scenario == 6 {
+		// the one attempt was refused by the socket; it is not repeated and nothing else fails
+		verifAssert("C10.one_disconnect_request", disc == 0 && sock.refused == 1)
+	} else {
+		verifAssert("C10.one_disconnect_request", disc == 1)
+	}
 	verifAssert("C10.socket_released_once", sock.closed == 1)
 	verifAssert("C10.no_goroutine_left", alive == 0)
 	if withReader {
